@@ -376,21 +376,23 @@ def symbol_sites(tree: Tree, module_prefixes: Iterable[str]) -> list[dict]:
             if callee not in SYMBOL_CTORS or not call.args:
                 continue
             name_node = call.args[0]
-            skel = _skeleton(name_node)
-            if skel is None and isinstance(name_node, ast.Name):
-                # name built in a local variable first
+            skels = [_skeleton(name_node)]
+            if skels[0] is None and isinstance(name_node, ast.Name):
+                # name built in a local variable first (possibly on several branches)
                 rd = RD(fn.node)
                 defs = rd.reaching(name_node)
-                if len(defs) == 1:
-                    d = next(iter(defs))
-                    if d.value is not None:
-                        skel = _skeleton(d.value)
+                found = [_skeleton(d.value) for d in defs if d.value is not None]
+                if found and all(f is not None for f in found) and len(found) == len(defs):
+                    skels = sorted(set(found))
             assumptions = {k.arg: unparse(k.value) for k in call.keywords if k.arg and k.arg not in {"shape", "cls", "seq"}}
             star = any(k.arg is None for k in call.keywords)
             kind = SYMBOL_CTORS[callee]
-            names = [skel]
-            if kind == "symbols" and skel is not None and "{}" not in skel:
-                names = expand_symbols(skel)
+            names = []
+            for skel in skels:
+                if kind == "symbols" and skel is not None and "{}" not in skel:
+                    names.extend(expand_symbols(skel))
+                else:
+                    names.append(skel)
             for nm in names:
                 out.append({
                     "fn": q,
